@@ -8,6 +8,8 @@ import ast
 import hashlib
 import os
 
+from .normalize import normalize_module
+
 REPO = os.environ.get("VERIF_REPO", "/repo")
 PKG = "artap"
 
@@ -48,7 +50,7 @@ class Module:
         self.name = name
         self.path = path
         self.source = source
-        self.tree = ast.parse(source, filename=path)
+        self.tree = normalize_module(ast.parse(source, filename=path))
         self.digest = hashlib.sha256(source.encode()).hexdigest()[:16]
         self.classes = {}
         self.functions = {}
